@@ -156,6 +156,13 @@ def go_build(out, pkg, tags="verif", race=False, overlay=True, timeout=600):
     gs = open(os.path.join(REPO, "go.sum")).read()
     write_if_changed(os.path.join(HARNESS, "go.sum"), gs)
     cmd = ["go", "build", "-o", out]
+    if os.path.realpath(REPO) != "/repo":
+        # checking a scratch copy of the repository: same go.mod with the replace directive redirected
+        mf = os.path.join(WORK, "go_" + os.path.basename(pkg) + ".mod")
+        gm = open(os.path.join(HARNESS, "go.mod")).read().replace("=> /repo", "=> " + os.path.realpath(REPO))
+        open(mf, "w").write(gm)
+        open(mf[:-4] + ".sum", "w").write(gs)
+        cmd += ["-modfile", mf]
     if tags:
         cmd += ["-tags", tags]
     if race:
